@@ -1,1 +1,537 @@
-// harnesses for path (included into loom under cfg(loom_verif))
+// crate::rt::path::verif -- C14 (DFS step, no resurrection, replay fidelity),
+// C15 (preemption accounting), C19 (exploring flag, capacity), C01-O2/O3.
+#![allow(dead_code, unused_imports)]
+
+use super::*;
+use crate::rt::verif::vharness;
+#[cfg(not(kani))]
+use crate::rt::verif::kani_shim as kani;
+
+const NONE: u8 = 255;
+const EXEC: usize = 7;
+
+fn eid() -> execution::Id {
+    crate::rt::execution::verif::id(EXEC)
+}
+
+fn tid(i: usize) -> thread::Id {
+    thread::Id::new(eid(), i)
+}
+
+// Thread codes: 0 Disabled, 1 Skip, 2 Yield, 3 Pending, 4 Active, 5 Visited
+fn t_code(t: Thread) -> u8 {
+    match t {
+        Thread::Disabled => 0,
+        Thread::Skip => 1,
+        Thread::Yield => 2,
+        Thread::Pending => 3,
+        Thread::Active => 4,
+        Thread::Visited => 5,
+    }
+}
+
+fn t_from(c: u8) -> Thread {
+    match c {
+        0 => Thread::Disabled,
+        1 => Thread::Skip,
+        2 => Thread::Yield,
+        3 => Thread::Pending,
+        4 => Thread::Active,
+        _ => Thread::Visited,
+    }
+}
+
+/// Harness-side copy of one decision-stack entry.
+#[derive(Clone, Copy, PartialEq)]
+struct Snap {
+    kind: u8, // 0 schedule, 1 load, 2 spurious
+    exploring: bool,
+    threads: [u8; MAX_THREADS],
+    preemptions: u8,
+    initial_active: u8,
+    prev: u8,
+    lpos: u8,
+    llen: u8,
+    lvals: [u8; MAX_ATOMIC_HISTORY],
+    spur: bool,
+}
+
+const BLANK: Snap = Snap {
+    kind: 0,
+    exploring: false,
+    threads: [0; MAX_THREADS],
+    preemptions: 0,
+    initial_active: NONE,
+    prev: NONE,
+    lpos: 0,
+    llen: 0,
+    lvals: [0; MAX_ATOMIC_HISTORY],
+    spur: false,
+};
+
+fn snap(path: &Path, i: usize) -> Snap {
+    let r = object::Ref::from_usize(i);
+    let mut s = BLANK;
+    if let Some(sr) = r.downcast::<Schedule>(&path.branches) {
+        let sc = sr.get(&path.branches);
+        s.kind = 0;
+        s.exploring = sc.exploring;
+        let mut k = 0;
+        while k < MAX_THREADS {
+            s.threads[k] = t_code(sc.threads[k]);
+            k += 1;
+        }
+        s.preemptions = sc.preemptions;
+        s.initial_active = match sc.initial_active {
+            Some(v) => v,
+            None => NONE,
+        };
+        s.prev = NONE;
+        // locate prev by position: the previous schedule entry it refers to
+        if let Some(p) = sc.prev {
+            let mut j = 0;
+            while j < i {
+                if let Some(c) = object::Ref::from_usize(j).downcast::<Schedule>(&path.branches) {
+                    if c.ref_eq(p) {
+                        s.prev = j as u8;
+                    }
+                }
+                j += 1;
+            }
+        }
+    } else if let Some(lr) = r.downcast::<Load>(&path.branches) {
+        let l = lr.get(&path.branches);
+        s.kind = 1;
+        s.exploring = l.exploring;
+        s.lpos = l.pos;
+        s.llen = l.len;
+        s.lvals = l.values;
+    } else if let Some(pr) = r.downcast::<Spurious>(&path.branches) {
+        let p = pr.get(&path.branches);
+        s.kind = 2;
+        s.exploring = p.exploring;
+        s.spur = p.spur;
+    }
+    s
+}
+
+fn active_of(s: &Snap) -> u8 {
+    let mut k = 0;
+    let mut r = NONE;
+    while k < MAX_THREADS {
+        if s.threads[k] == 4 && r == NONE {
+            r = k as u8;
+        }
+        k += 1;
+    }
+    r
+}
+
+/// `arr[idx]` without a symbolic array index (CBMC 6.11 returned values that
+/// do not reproduce natively for symbolic indices into arrays of structs that
+/// contain arrays; every harness therefore selects by a concrete-index loop).
+fn pick<const D: usize>(arr: &[Snap; D], idx: u8) -> Snap {
+    let mut r = BLANK;
+    let mut i = 0;
+    while i < D {
+        if i as u8 == idx {
+            r = arr[i];
+        }
+        i += 1;
+    }
+    r
+}
+
+fn mark<const D: usize>(arr: &mut [bool; D], idx: u8) {
+    let mut i = 0;
+    while i < D {
+        if i as u8 == idx {
+            arr[i] = true;
+        }
+        i += 1;
+    }
+}
+
+/// Number of threads whose state is symbolic in a symbolic schedule entry.
+const NT: usize = 3;
+
+/// Pushes a symbolic entry of the given kind, satisfying the stack's
+/// representation invariant: a schedule has at most one Active thread, its
+/// `prev` is the nearest schedule below it; a load has 1 <= len <= 7 and
+/// pos < len.
+fn push_any(path: &mut Path, kind: u8) {
+    let exploring: bool = kani::any();
+    match kind {
+        0 => {
+            let prev = path.last_schedule();
+            let mut threads = [Thread::Disabled; MAX_THREADS];
+            let mut actives = 0;
+            let mut k = 0;
+            while k < NT {
+                let c: u8 = kani::any();
+                kani::assume(c <= 5);
+                if c == 4 {
+                    actives += 1;
+                }
+                threads[k] = t_from(c);
+                k += 1;
+            }
+            kani::assume(actives <= 1);
+            let ia: u8 = kani::any();
+            kani::assume(ia == NONE || (ia as usize) < NT);
+            let pre: u8 = kani::any();
+            kani::assume(pre <= 3);
+            path.branches.insert(Schedule {
+                preemptions: pre,
+                initial_active: if ia == NONE { None } else { Some(ia) },
+                threads,
+                prev,
+                exploring,
+            });
+        }
+        1 => {
+            let len: u8 = kani::any();
+            kani::assume(len >= 1 && len <= 3);
+            let pos: u8 = kani::any();
+            kani::assume(pos < len);
+            let mut values = [0u8; MAX_ATOMIC_HISTORY];
+            values[0] = kani::any();
+            values[1] = kani::any();
+            values[2] = kani::any();
+            kani::assume(values[0] < 7 && values[1] < 7 && values[2] < 7);
+            path.branches.insert(Load { values, pos, len, exploring });
+        }
+        _ => {
+            let spur: bool = kani::any();
+            path.branches.insert(Spurious { spur, exploring });
+        }
+    }
+}
+
+fn has_alternative(s: &Snap) -> bool {
+    if !s.exploring {
+        return false;
+    }
+    match s.kind {
+        0 => {
+            let mut k = 0;
+            let mut r = false;
+            while k < MAX_THREADS {
+                if s.threads[k] == 3 {
+                    r = true;
+                }
+                k += 1;
+            }
+            r
+        }
+        1 => s.lpos + 1 < s.llen,
+        _ => !s.spur,
+    }
+}
+
+/// C14 / C01-O3 / C19: one DFS step from an arbitrary decision stack of the
+/// given shape.
+fn step_case<const D: usize>(kinds: [u8; D]) {
+    let exploring_on_start: bool = kani::any();
+    let mut path = Path::new(D + 1, None, exploring_on_start);
+    path.exploring = kani::any();
+    path.skipping = kani::any();
+    let mut old = [BLANK; D];
+    let mut i = 0;
+    while i < D {
+        push_any(&mut path, kinds[i]);
+        i += 1;
+    }
+    path.pos = D; // the iteration that just finished traversed the whole stack
+    let mut i = 0;
+    while i < D {
+        old[i] = snap(&path, i);
+        i += 1;
+    }
+
+    let more = path.step();
+
+    // deepest entry that is exploring and still has an unexplored alternative
+    let mut j = NONE;
+    let mut i = 0;
+    while i < D {
+        if has_alternative(&old[i]) {
+            j = i as u8;
+        }
+        i += 1;
+    }
+    // (a) there is a next iteration iff such an entry exists
+    assert!(more == (j != NONE));
+    // (c) the cursor and the exploration flags are reset
+    assert!(path.pos == 0);
+    assert!(path.exploring == exploring_on_start);
+    assert!(!path.skipping);
+    if more {
+        // (b) the stack is cut directly above j, untouched below j
+        assert!(path.branches.len() == j as usize + 1);
+        let mut i = 0;
+        while i < D {
+            if (i as u8) < j {
+                assert!(snap(&path, i) == old[i]);
+            }
+            if i as u8 == j {
+                let new = snap(&path, i);
+                let was_e = old[i];
+                assert!(new.kind == was_e.kind && new.exploring);
+                if was_e.kind == 0 {
+                    // the previous choice is retired for good, the lowest pending
+                    // thread is taken next, nobody else changes
+                    let was = active_of(&was_e);
+                    let mut first_pending = NONE;
+                    let mut k = 0;
+                    while k < MAX_THREADS {
+                        if was_e.threads[k] == 3 && first_pending == NONE {
+                            first_pending = k as u8;
+                        }
+                        k += 1;
+                    }
+                    let mut k = 0;
+                    while k < MAX_THREADS {
+                        let e = if k as u8 == was {
+                            5
+                        } else if k as u8 == first_pending {
+                            4
+                        } else {
+                            was_e.threads[k]
+                        };
+                        assert!(new.threads[k] == e);
+                        k += 1;
+                    }
+                    assert!(new.preemptions == was_e.preemptions);
+                    assert!(new.initial_active == was_e.initial_active);
+                    assert!(new.prev == was_e.prev);
+                } else if was_e.kind == 1 {
+                    assert!(new.lpos == was_e.lpos + 1);
+                    assert!(new.llen == was_e.llen);
+                    let mut k = 0;
+                    while k < MAX_ATOMIC_HISTORY {
+                        assert!(new.lvals[k] == was_e.lvals[k]);
+                        k += 1;
+                    }
+                } else {
+                    assert!(!was_e.spur && new.spur);
+                }
+            }
+            i += 1;
+        }
+    }
+    kani::cover!(more && j == 0, "advance at the bottom after popping the exhausted entries above");
+    kani::cover!(more && j as usize == D - 1, "advance at the top");
+    kani::cover!(!more, "exploration finished");
+    kani::cover!(more && (j as usize) < D - 1 && !old[D - 1].exploring && (old[D - 1].kind != 2 || !old[D - 1].spur), "a non-exploring entry is popped without being advanced");
+    std::mem::forget(path);
+}
+
+vharness! {
+    /// @prop C14,C01,C19 @tier quick @mode fast @cost 2 @funcs Path::step,Store::truncate,Ref::downcast @bounds decision stack of depth 2, kinds [schedule,schedule], 3 symbolic threads per schedule (all 6 states), symbolic exploring flags
+    /// Path::step returns true iff some exploring entry has an unexplored alternative; it cuts the stack above the deepest such entry, leaves everything below untouched, retires the previous choice (Visited) and activates the lowest pending thread: strict depth-first advance, no revisits.
+    #[cfg_attr(kani, kani::unwind(8))]
+    fn path_step_ss() { step_case([0, 0]) }
+}
+
+vharness! {
+    /// @prop C14,C01,C19 @tier quick @mode fast @cost 2 @funcs Path::step @bounds depth 2, kinds [load,spurious], load length 1..3
+    /// DFS step: load entries advance to the next candidate, spurious entries flip once; exhausted/non-exploring entries are popped.
+    #[cfg_attr(kani, kani::unwind(8))]
+    fn path_step_lp() { step_case([1, 2]) }
+}
+
+vharness! {
+    /// @prop C14,C01,C19 @tier quick @mode fast @cost 2 @funcs Path::step @bounds depth 2, kinds [schedule,load]
+    /// DFS step, load above a schedule.
+    #[cfg_attr(kani, kani::unwind(8))]
+    fn path_step_sl() { step_case([0, 1]) }
+}
+
+vharness! {
+    /// @prop C14,C19 @tier thorough @mode fast @cost 2 @funcs Path::step @bounds depth 2, kinds [spurious,schedule]
+    /// DFS step, schedule above a spurious entry.
+    #[cfg_attr(kani, kani::unwind(8))]
+    fn path_step_ps() { step_case([2, 0]) }
+}
+
+vharness! {
+    /// @prop C14,C01,C19 @tier thorough @mode fast @cost 4 @timeout 7200 @funcs Path::step @bounds depth 3, kinds [schedule,load,schedule]
+    /// DFS step over three entries (pop two, advance the third).
+    #[cfg_attr(kani, kani::unwind(8))]
+    fn path_step_sls() { step_case([0, 1, 0]) }
+}
+
+/// C14 "no resurrection" / C01-O2 / C19 / C15: one backtrack request on an
+/// arbitrary stack of the given shape.
+fn backtrack_case<const D: usize>(kinds: [u8; D], bounded: bool, point: usize) {
+    let bound: Option<u8> = if bounded {
+        let b: u8 = kani::any();
+        kani::assume(b <= 3);
+        Some(b)
+    } else {
+        None
+    };
+    let mut path = Path::new(D + 1, bound, true);
+    let mut i = 0;
+    while i < D {
+        push_any(&mut path, kinds[i]);
+        i += 1;
+    }
+    // loom's own internal invariant (asserted in Schedule::backtrack)
+    if let Some(b) = bound {
+        let mut i = 0;
+        while i < D {
+            let s = snap(&path, i);
+            if s.kind == 0 {
+                kani::assume(s.preemptions <= b);
+            }
+            i += 1;
+        }
+    }
+    let mut old = [BLANK; D];
+    let mut i = 0;
+    while i < D {
+        old[i] = snap(&path, i);
+        i += 1;
+    }
+    let t: usize = kani::any();
+    kani::assume(t < NT);
+
+    path.backtrack(point, tid(t));
+
+    // reference: the request lands on the nearest exploring schedule at or
+    // below `point`
+    let mut j = NONE;
+    let mut i = 0;
+    while i < D {
+        if i <= point && old[i].kind == 0 && old[i].exploring {
+            j = i as u8;
+        }
+        i += 1;
+    }
+    // marks that a schedule entry receives: the requested thread if it is
+    // enabled there, otherwise every thread; Skip -> Pending only; nothing when
+    // the entry already used up the preemption budget
+    let mut expect = old;
+    let mut marked = [false; D];
+    if j != NONE {
+        mark(&mut marked, j);
+        if bounded {
+            // conservative extra point: walking down the chain of previous
+            // schedules, the first exploring one where the running thread
+            // changed (or the very first schedule)
+            let mut curr = pick(&old, j).prev;
+            let mut done = curr == NONE;
+            let mut guard = 0;
+            while !done && guard < D {
+                let c = pick(&old, curr);
+                let p = c.prev;
+                if p != NONE {
+                    if active_of(&c) != active_of(&pick(&old, p)) && c.exploring {
+                        mark(&mut marked, curr);
+                        done = true;
+                    } else {
+                        curr = p;
+                    }
+                } else {
+                    if c.exploring {
+                        mark(&mut marked, curr);
+                    }
+                    done = true;
+                }
+                guard += 1;
+            }
+        }
+    }
+    let mut i = 0;
+    while i < D {
+        if marked[i] {
+            let at_budget = match bound {
+                Some(b) => old[i].preemptions == b,
+                None => false,
+            };
+            if !at_budget {
+                let mut at_t = 0;
+                let mut k = 0;
+                while k < MAX_THREADS {
+                    if k == t {
+                        at_t = old[i].threads[k];
+                    }
+                    k += 1;
+                }
+                if at_t != 0 {
+                    let mut k = 0;
+                    while k < MAX_THREADS {
+                        if k == t && at_t == 1 {
+                            expect[i].threads[k] = 3;
+                        }
+                        k += 1;
+                    }
+                } else {
+                    let mut k = 0;
+                    while k < MAX_THREADS {
+                        if old[i].threads[k] == 1 {
+                            expect[i].threads[k] = 3;
+                        }
+                        k += 1;
+                    }
+                }
+            }
+        }
+        i += 1;
+    }
+    assert!(path.branches.len() == D);
+    let mut i = 0;
+    while i < D {
+        let now = snap(&path, i);
+        assert!(now == expect[i]);
+        // no resurrection, whatever the reference says: a thread state only
+        // ever changes from Skip to Pending, and only in exploring schedules
+        let mut k = 0;
+        while k < MAX_THREADS {
+            if now.threads[k] != old[i].threads[k] {
+                assert!(old[i].threads[k] == 1 && now.threads[k] == 3 && old[i].exploring && i <= point);
+            }
+            k += 1;
+        }
+        i += 1;
+    }
+    kani::cover!(j != NONE && (j as usize) < point, "request falls through to a lower schedule");
+    kani::cover!(j != NONE && pick(&old, j).threads[0] == 0 && t == 0, "requested thread disabled there: everyone is marked");
+    kani::cover!(j == NONE, "no exploring schedule at or below the point: request dropped");
+    let _ = point;
+    if bounded {
+        kani::cover!(j != NONE && pick(&old, j).preemptions == bound.unwrap(), "budget used up: nothing marked at j");
+        kani::cover!(marked[0] && j as usize == D - 1 && D > 1, "conservative point on a lower schedule");
+    }
+    std::mem::forget(path);
+}
+
+vharness! {
+    /// @prop C14,C01,C19 @tier quick @mode fast @cost 2 @funcs Path::backtrack,Schedule::backtrack,Thread::explore @bounds depth 2, kinds [schedule,schedule], no preemption bound, request aimed at the top entry, symbolic thread
+    /// a backtrack request marks (Skip->Pending) only at the nearest exploring schedule at or below the point: the requested thread if enabled there, else all; Visited/Active/Disabled/Yield entries never change (no resurrection), non-exploring schedules are never marked.
+    #[cfg_attr(kani, kani::unwind(8))]
+    fn path_backtrack_ss() { backtrack_case([0, 0], false, 1) }
+}
+
+vharness! {
+    /// @prop C14,C01,C19 @tier quick @mode fast @cost 2 @funcs Path::backtrack,Schedule::backtrack @bounds depth 2, kinds [schedule,load], no preemption bound
+    /// a backtrack request aimed at a load entry falls through to the schedule below.
+    #[cfg_attr(kani, kani::unwind(8))]
+    fn path_backtrack_sl() { backtrack_case([0, 1], false, 1) }
+}
+
+vharness! {
+    /// @prop C15,C14 @tier quick @mode fast @cost 2 @funcs Path::backtrack,Schedule::backtrack,Schedule::active_thread_index @bounds depth 2, kinds [schedule,schedule], preemption bound 0..3 symbolic
+    /// with a preemption bound: nothing is marked on a schedule that already used its budget; the conservative extra backtrack point lands on the first schedule.
+    #[cfg_attr(kani, kani::unwind(8))]
+    fn path_backtrack_bounded_ss() { backtrack_case([0, 0], true, 1) }
+}
+
+vharness! {
+    /// @prop C15,C14 @tier thorough @mode fast @cost 4 @timeout 7200 @funcs Path::backtrack,Schedule::backtrack @bounds depth 3, kinds [schedule,schedule,schedule], preemption bound 0..3
+    /// bounded backtrack over three schedules: the conservative point is the nearest lower exploring schedule where the running thread changed.
+    #[cfg_attr(kani, kani::unwind(8))]
+    fn path_backtrack_bounded_sss() { backtrack_case([0, 0, 0], true, 2) }
+}
